@@ -1,4 +1,5 @@
 """C07 - the bridge delivers each valid broadcast once, in order, whatever else arrives (DESIGN.md 4/C07)"""
+from .common import frame_ok as _frame_ok
 import z3
 
 from pyvc.sym import Seq, Elems, Obj, ExcVal, array_gen, char_fact, fresh_name
@@ -75,8 +76,8 @@ def units(tier):
                                           (own and len(calls) == 1) or (not own and len(calls) == 0), note=f"{ob[1].cls}, {len(calls)} calls"))
                     if own:
                         last = ctx.ghost.events[-1][0] if ctx.ghost.events else None
-                        obs.append(Obligation(base + "/nothing_happens_after_a_raising_callback", ctx, last == "callback"))
-                obs.append(Obligation(base + "/assigns_nothing", ctx, not ctx.ghost.heap_writes and not ctx.ghost.module_writes and not cb.state.keys() - {"may_raise"}))
+                        obs.append(Obligation(base + "/nothing_happens_after_a_raising_callback", ctx, last in ("callback", "callback_object")))
+                obs.append(Obligation(base + "/assigns_nothing", ctx, _frame_ok(ctx)[0] and not cb.state.keys() - {"may_raise"}))
                 obs.append(Obligation(base + "/no_warning_for_a_known_type", ctx, not ctx.ghost.warnings))
                 return obs
             nm = dt.name + (f"_{split}" if split is not None else "")
@@ -181,7 +182,7 @@ def units(tier):
             ob = outcome_of(lambda: ip.call_function(func(PARSE), [cb, m], {}, ctx))
             base = f"{PROP}/foreign_len_{lc}"
             return [Obligation(base + "/never_delivered", ctx, len(ctx.ghost.callback_calls) == 0),
-                    Obligation(base + "/no_exception_no_trace", ctx, ob[0] == "ret" and not ctx.ghost.heap_writes and not ctx.ghost.module_writes
+                    Obligation(base + "/no_exception_no_trace", ctx, ob[0] == "ret" and _frame_ok(ctx)[0]
                                and not ctx.ghost.warnings)]
         u[f"foreign_{lc}"] = Unit(f"foreign_{lc}", PROP, foreign, functions=[PARSE, B + "DatagramParser.is_switcher_originator"])
 
